@@ -99,6 +99,7 @@ fn run_tokens(toks: &[&str]) -> String {
         "API" => chan_api::api(args),
         "OPSX" => chan_ops::ops(args), // megabyte-sized payloads: implementation only (the model answers NA), judged by the oracle
         "CLI" => chan_cli::cli(args),
+        "CLIX" => chan_cli::cli(args), // payloads of many MiB: implementation only (the model answers NA), judged by the oracle
         "ID" => chan_id::id(args),
         "IDPAIR" => chan_id::idpair(args),
         "IDREF" => chan_id::idref(args),
@@ -128,6 +129,7 @@ fn run_tokens(toks: &[&str]) -> String {
         "RTV" => chan_bundle::rtv(args),
         "RTBIG" => chan_bundle::rtbig(args),
         "SPEC" => chan_bundle::spec(args),
+        "SPECX" => chan_bundle::spec(args), // megabyte-sized blocks: implementation only (the model answers NA), judged against the reference encoder
         "DECRT" => chan_bundle::decrt(args),
         "CRC16" => chan_bundle::crc16(args),
         "CRC32" => chan_bundle::crc32(args),
